@@ -1819,7 +1819,7 @@ func checkClose(c *checkCtx) {
 			}
 		}
 	}
-	for r, rounds := 0, c.pick(40, 2000); r < rounds && !stop; r++ {
+	for r, rounds := 0, c.pick(24, 2000); r < rounds && !stop; r++ {
 		res := clsStorm(c, r, 128)
 		name := fmt.Sprintf("storm#%d", r)
 		if res.inc != "" {
